@@ -5,6 +5,7 @@ package main
 // under test roll the environment back exactly as the real modules would.
 
 import (
+	"github.com/cosmos/cosmos-sdk/runtime"
 	math2 "math"
 	"context"
 	"encoding/json"
@@ -100,6 +101,7 @@ func (p *Pool) operOrder(n int) []int {
 // env store
 
 type Env struct {
+	clientKey *storetypes.KVStoreKey // store holding the real light-client stores, if mounted
 	key  *storetypes.KVStoreKey
 	pool *Pool
 	// failure injection: name of the call to fail -> countdown (1 = fail the next call)
@@ -783,7 +785,13 @@ func (c *ClientK) GetClientConsensusState(ctx sdk.Context, clientID string, heig
 func (c *ClientK) ClientStore(ctx sdk.Context, clientID string) storetypes.KVStore { return nil }
 func (c *ClientK) SetClientState(ctx sdk.Context, clientID string, clientState ibcexported.ClientState) {
 }
-func (c *ClientK) GetStoreProvider() clienttypes.StoreProvider { return clienttypes.StoreProvider{} }
+func (c *ClientK) GetStoreProvider() clienttypes.StoreProvider {
+	if c.e.clientKey == nil {
+		return clienttypes.StoreProvider{}
+	}
+	// REAL client stores (used by the 07-tendermint light client module for misbehaviour checks)
+	return clienttypes.NewStoreProvider(runtime.NewKVStoreService(c.e.clientKey))
+}
 
 type fakeSoloClient struct{}
 
